@@ -160,6 +160,14 @@ def scenarios():
         [_call(va, 'sample-jsons/event.json', 'json/event.json'), _call(va, 'sample-jsons/competition.json', 'json/competition.json')], tiers=('thorough',), bound=(2, 2))
     add('S5 valid_against_schema athlete||event (one schema with file references), caches empty', [],
         [_call(va, 'sample-jsons/athlete.json', 'json/athlete.json'), _call(va, 'sample-jsons/event.json', 'json/event.json')], bound=(2, 2))
+    import glob
+    race_docs = sorted(os.path.basename(f) for f in glob.glob(os.path.join(common.REPO, 'sample-jsons', 'race*.json')) if 'invalid' not in f)
+    if race_docs:
+        # race.json is the schema with references relative to itself ('#/definitions/...'): whatever resolves them keeps a scope while it works
+        add('S5 valid_against_schema race||event (references relative to the schema itself), caches empty', [],
+            [_call(va, 'sample-jsons/' + race_docs[0], 'json/race.json'), _call(va, 'sample-jsons/event.json', 'json/event.json')], bound=(2, 2))
+        add('S5 valid_against_schema race||competition, resolver warmed-up by another validation', [_call(va, 'sample-jsons/athlete.json', 'json/athlete.json')],
+            [_call(va, 'sample-jsons/' + race_docs[0], 'json/race.json'), _call(va, 'sample-jsons/competition.json', 'json/competition.json')], bound=(1, 2))
     # a cache hit racing with an insertion that evicts exactly that (most recent) entry
     add('S5 schema_valid hit||evicting insert, cache at 20', [lambda: fill_schema_cache(19), _call(sv, 'json/athlete.json', D4)],
         [_call(sv, 'json/athlete.json', D4), _call(sv, 'json/event.json', D4)], bound=(2, 3))
